@@ -256,6 +256,24 @@ func drivers() []text {
 		must(s.Binary(b))
 		must(s.Char('A'))
 	})
+	// binary bytes >= 0x80 that happen to be WELL-FORMED UTF-8: without an ECI they are still
+	// ISO-8859-1 (C3 A9 reads as two characters, not as e-acute); every lead-byte class, the shortest
+	// and the longest continuation, alone and inside text, and next to a stray high byte
+	for i, b := range [][]byte{
+		{0xC3, 0xA9}, {'n', 0xC2, 0xB0, '1'}, {0xE2, 0x82, 0xAC, '5'}, {0xF0, 0x9F, 0x98, 0x80}, {'c', 'a', 'f', 0xC3, 0xA9},
+		{0xC2, 0x80}, {0xDF, 0xBF}, {0xE0, 0xA0, 0x80}, {0xEF, 0xBF, 0xBD}, {0xEF, 0xBB, 0xBF, 'x'}, {0xF4, 0x8F, 0xBF, 0xBF},
+		{0xC3, 0xA9, 0xC3, 0xA9, 0xC3, 0xA9}, {0xC3, 0xA9, 0xE9}, {0xE9, 0xC3, 0xA9}, {0xD0, 0x9F, 0xD1, 0x80, 0xD0, 0xB8},
+	} {
+		b := b
+		add(fmt.Sprintf("bs8/utf8-shaped/%d", i), "latin1", "latin1", func(s *az.Script) {
+			must(s.Char('A'))
+			must(s.Binary(b))
+			must(s.Char('Z'))
+		})
+		add(fmt.Sprintf("bs8/utf8-shaped/only/%d", i), "latin1", "latin1", func(s *az.Script) {
+			must(s.Binary(b))
+		})
+	}
 	// "U/S B/S" from Lower and Digit (what ZXing-family encoders emit to reach binary from Digit)
 	for _, t := range []az.Table{az.Lower, az.Digit} {
 		t := t
